@@ -71,7 +71,7 @@ Lemma G_bnode k a ma : RAg a ma -> gsim (Adapter_bnode SN k a) (a_bnode k ma).
 Proof. intros H. pose proof H as H0. tags a ma H; cbn; (split; [reflexivity | exact H0]). Qed.
 
 Lemma G_literal lex lang dt a ma : RAg a ma -> gsim (Adapter_literal SN lex lang dt a) (a_literal lex lang dt ma).
-Proof. intros H. pose proof H as H0. tags a ma H; cbn; (split; [reflexivity | exact H0]). Qed.
+Proof. intros H. pose proof H as H0. unfold a_literal. tags a ma H; rewrite Hig; cbn; (split; [reflexivity | exact H0]). Qed.
 
 Lemma G_quoted ts tms a ma : RAg a ma -> Forall2 RTg ts (map ATerm tms) -> gsim (Adapter_quoted_triple SN ts a) (a_quoted (map ATerm tms) ma).
 Proof.
